@@ -132,5 +132,10 @@ func runNode(events []string, props []string, args map[string]string) (res vx.Re
 		res.Next = s.results
 	}
 	res.Count("events_applied", int64(len(events)))
+	if args["results"] == "1" {
+		for _, e := range n.trace {
+			res.Next = append(res.Next, fmt.Sprintf("TRACE step=%d %s %s %d/%d %s %s", e.step, e.kind, e.a, e.h, e.r, h8([]byte(e.hash)), strings.ReplaceAll(e.x, "\n", " ")[:min(len(e.x), 20)]))
+		}
+	}
 	return res
 }
